@@ -394,7 +394,21 @@ def _derive_stepwise(cv, M, prefix, comps, xkey):
         return x
 
 
+def _ser43(key, cc, depth, fp, child):
+    import bits.bips.bip43 as b43
+    return b43.serialized_extended_key(_key(key), cc, depth, fp, child)
+
+
+def _root(key, cc, testnet):
+    import bits.bips.bip32 as b32
+    import bits.bips.bip43 as b43
+    if testnet is None:
+        return b43.root_serialized_extended_key(_key(key), cc)
+    return b32.root_serialized_extended_key(_key(key), cc, testnet=testnet)
+
+
 IMPL = {
+    "ser43": _ser43, "root": _root,
     "ckdpriv": _ckdpriv, "ckdpub": _ckdpub, "commute": _commute, "master": _master, "ser": _ser, "deser": _deser,
     "get_xpub": _get_xpub, "derive": _derive, "derive_stepwise": _derive_stepwise,
     "py_int": lambda s: int(s),
@@ -412,6 +426,10 @@ def model_call(c):
         return "c09_" + op, _cargs(a[0], a[1]) + list(a[2:])
     if op == "derive_stepwise":
         return "c09_derive", _cargs(a[0], a[1]) + [a[2] + "".join("/" + t for t in a[3]), a[4]]
+    if op == "ser43":        # BIP43: always the mainnet version bytes
+        return "c09_ser", list(a) + [False]
+    if op == "root":         # depth 0, zero fingerprint, zero child number
+        return "c09_ser", [a[0], a[1], b"\0", b"\0\0\0\0", b"\0\0\0\0", bool(a[2])]
     return "c09_" + op, a
 
 
@@ -652,6 +670,8 @@ def _gen_serde(rng, T, out):
                 # serialisation with bytes and with int depth / child number
                 out.append(case("ser-valid-bytes", "ser", key, X.cc, bytes([X.depth]), X.fp, X.child.to_bytes(4, "big"), X.testnet))
                 out.append(case("ser-valid-ints", "ser", key, X.cc, X.depth, X.fp, X.child, X.testnet))
+                out.append(case("ser-bip43", "ser43", key, X.cc, bytes([X.depth]), X.fp, X.child.to_bytes(4, "big")))
+                out.append(case("ser-root", "root", key, X.cc, rng.choice([None, False, True])))
                 out.append(case("get_xpub-" + ("pub" if public else "prv"), "get_xpub", cv, 0, X.ser()))
                 for (lab, payload) in _mutations(rng, C, X):
                     out.append(case("deser-" + lab, "deser", cv, 0, b58c(payload), strict=True))
@@ -794,6 +814,10 @@ def prop_oracle(c):
         return None
     if op == "ser":
         return _oracle_ser(a)
+    if op == "ser43":
+        return _oracle_ser(list(a) + [False], impl=lambda: _ser43(*a))
+    if op == "root":
+        return _oracle_ser([a[0], a[1], b"\0", b"\0\0\0\0", b"\0\0\0\0", bool(a[2])], impl=lambda: _root(*a))
     cv, M = a[0], a[1]
     C, hf = curve(cv), hm(M)
     if op == "ckdpriv":
@@ -915,7 +939,7 @@ def _canonical_path(path):
     return parts[0] == "M", idxs
 
 
-def _oracle_ser(a):
+def _oracle_ser(a, impl=None):
     key, cc, depth, fp, child, testnet = a
     dz = depth if isinstance(depth, int) else (depth[0] if len(depth) == 1 else None)
     cz = child if isinstance(child, int) else (int.from_bytes(child, "big") if len(child) == 4 else None)
@@ -935,7 +959,7 @@ def _oracle_ser(a):
         X = XK(testnet, dz, fp, cz, cc, tuple(key))
     else:
         return None
-    ok, s = _try(lambda: _ser(key, cc, depth, fp, child, testnet))
+    ok, s = _try(impl or (lambda: _ser(key, cc, depth, fp, child, testnet)))
     if not ok:
         return "serialized_extended_key raised %r on a valid field tuple" % s
     if s != X.ser():
@@ -961,7 +985,7 @@ def extra_checks(ctx):
     per_cls = {}
     n_eval = 0
     for c in cases:
-        cv = c["args"][0] if c["op"] not in ("py_int", "master", "ser") else None
+        cv = c["args"][0] if c["op"] not in ("py_int", "master", "ser", "ser43", "root") else None
         heavy = cv == 0 and c["op"] in ("derive", "derive_stepwise", "commute", "ckdpriv", "ckdpub", "get_xpub")
         kind = "secp" if heavy else "cheap"
         lim = (3 if T else 1) if heavy else (40 if T else 8)
@@ -1056,23 +1080,28 @@ def coq_equation(c, mr):
         k = _coq_key(key if isinstance(key, int) or key is None else tuple(key))
         return "c09_ser sha256 %s %s %s %s %s %s = %s" % (k, coq_bytes(cc), bzl(depth), coq_bytes(fp), bzl(child),
                                                          "true" if testnet else "false", _coq_res(mr, coq_bytes))
-    if op in ("deser", "get_xpub", "derive", "ckdpriv") and a[0] != 0 and a[1] == 0 or (op == "deser" and a[0] == 0 and mr[0] == "err"):
-        C = curve(a[0])
-        cur = "%s %s %s %s" % tuple(_coq_z(C[x]) for x in "pabn")
-        G = _coq_pt(C["G"])
-        if op == "deser":
-            if mr[0] == "ok" and a[0] == 0:
-                return None
-            lit = lambda f: "(%s, %s, %s, %s, %s, %s)" % (coq_bytes(f[0]), coq_bytes(f[1]), coq_bytes(f[2]), coq_bytes(f[3]),
-                                                          coq_bytes(f[4]), _coq_key(f[5] if isinstance(f[5], int) else tuple(f[5])))
-            if a[0] == 0 and len(a[2]) > 4 and (b58c_dec(a[2]) or b"")[:4] in (V_XPUB, V_TPUB):
-                return None          # would need 256-bit modular powers inside vm_compute
-            return "c09_deser %s sha256 %s = %s" % (cur, coq_bytes(a[2]), _coq_res(mr, lit))
-        if op == "get_xpub":
-            return "c09_get_xpub %s %s sha256 %s = %s" % (cur, G, coq_bytes(a[2]), _coq_res(mr, coq_bytes))
-        if op == "derive":
-            if len(a[2]) > 100:
-                return None
-            return "c09_derive %s %s hmac_sha512 sha256 ripemd160 %s %s = %s" % (
-                cur, G, coq_bytes(a[2].encode()), coq_bytes(a[3]), _coq_res(mr, coq_bytes))
-    return None
+    if op not in ("deser", "get_xpub", "derive"):
+        return None
+    cv, M = a[0], a[1]
+    if M != 0:
+        return None              # the toy HMAC's answers are not among the cross-check's oracle tables
+    if cv == 0:
+        # secp256k1 inside vm_compute: only what needs no 256-bit modular powers (private-version / early rejects)
+        if op != "deser":
+            return None
+        d = b58c_dec(a[2])
+        if d is not None and len(d) == 78 and d[:4] in (V_XPUB, V_TPUB):
+            return None
+    C = curve(cv)
+    cur = "%s %s %s %s" % tuple(_coq_z(C[x]) for x in "pabn")
+    G = _coq_pt(C["G"])
+    if op == "deser":
+        lit = lambda f: "(%s, %s, %s, %s, %s, %s)" % (coq_bytes(f[0]), coq_bytes(f[1]), coq_bytes(f[2]), coq_bytes(f[3]),
+                                                      coq_bytes(f[4]), _coq_key(f[5] if isinstance(f[5], int) else tuple(f[5])))
+        return "c09_deser %s sha256 %s = %s" % (cur, coq_bytes(a[2]), _coq_res(mr, lit))
+    if op == "get_xpub":
+        return "c09_get_xpub %s %s sha256 %s = %s" % (cur, G, coq_bytes(a[2]), _coq_res(mr, coq_bytes))
+    if len(a[2]) > 100:
+        return None
+    return "c09_derive %s %s hmac_sha512 sha256 ripemd160 %s %s = %s" % (
+        cur, G, coq_bytes(a[2].encode()), coq_bytes(a[3]), _coq_res(mr, coq_bytes))
